@@ -718,9 +718,14 @@ pub fn execute(case: &str) -> String {
                 Err(e) => return e,
             }
         }
+        // (on the value itself, not on a clone: it is this value that is reconfigured afterwards)
+        rt.block_on(async {
+            for req in round1 {
+                let res = ServiceExt::<HReq>::ready(&mut routes).await.unwrap().call(req).await.unwrap();
+                let _ = read_response(res).await;
+            }
+        });
         kept = Some(routes.clone());
-        let r1 = routes.clone();
-        let _ = rt.block_on(run_local("same", r1, round1));
         h.rec.lock().unwrap().clear();
         let mut reg = if p.mode == "grow-builder" { Reg::Builder(tonic::service::RoutesBuilder::from(routes)) } else { Reg::Routes(Some(routes)) };
         for &g in &p.reg[first_round..] {
